@@ -1,6 +1,7 @@
 import Secp.Proofs.ScalarMultSpec
 import Secp.Proofs.Cyclic
 import Secp.Props.C04
+import Secp.Proofs.Slices
 /-
   Props/C03 — scalar multiplication equals repeated group addition for every scalar and point.
 
@@ -69,5 +70,14 @@ theorem pointSpec : PointSpec where
   add3 := Secp.Props.C04.pointOps.add3
   toAffine := Secp.Props.C04.pointOps.toAffine
   decompress := Secp.Props.C04.pointOps.decompress
+
+
+/-- Limb level of this property's own functions: the REGENERATED sliced field programs (tools/gotr pass T2s,
+    `Secp.Gen.Slices`) of the prelude (±P, ±φ(P)) and loops of ScalarMultNonConst, the table walk of ScalarBaseMultNonConst, PubKey pass the abstract interpreter on every path — no magnitude overflow, every
+    comparison / parity test / serialisation reads a normalised value, every callee's precondition holds,
+    every returned key or point is normalised.  Together with C05 (kernels) and C16 (`absPath_sound`,
+    `contracts_justified`) this is what makes the value-level model above faithful to the limb code. -/
+theorem scalar_mult_field_arithmetic_exact :
+    Secp.Proofs.Slices.entriesOK ["github.com/ModChain/secp256k1.ScalarMultNonConst", "github.com/ModChain/secp256k1.ScalarBaseMultNonConst", "github.com/ModChain/secp256k1.PrivateKey.PubKey"] = true := by decide +kernel
 
 end Secp.Props.C03
